@@ -8,11 +8,13 @@
    (k, c) / (K, c) it denotes, [abs_out] lifts it to results.
    The cryptographic primitives are the variables of the Section; what is assumed of them is the
    single hypothesis [laws : prim_laws ...] (Codec/Bip32Proofs.v, Part B). After the Section is
-   closed every theorem is universally quantified over the primitives and that hypothesis. *)
+   closed every theorem is universally quantified over the primitives and that hypothesis.
+   Last part (Section C14Obj): the keys as mutable OBJECTS — Codec/Bip32Obj.v (heap of buffers,
+   Zero wiping in place, memoised pubKey, the OBJ / OBJN scripts), lemmas in Codec/Bip32ObjProofs.v. *)
 From Coq Require Import List ZArith.
 Import ListNotations.
 Open Scope Z_scope.
-Require Import MW.Codec.Bip32 MW.Codec.Bip32Proofs.
+Require Import MW.Codec.Bip32 MW.Codec.Bip32Proofs MW.Codec.Bip32Obj MW.Codec.Bip32ObjProofs.
 
 Section C14.
   Variable hmac512 : bytes -> bytes -> bytes.
@@ -231,3 +233,128 @@ Example C14_ex_child :
   Toy.spec_ckd Toy.hmac_copy (mkX (SPriv 123456789) (repeat 7 32) 2 [1; 2; 3; 4] 5 hd_private_key_id) (hardened_start + 3)
   /\ exists c, Toy.child Toy.hmac_copy ex_parent (hardened_start + 3) = Ok c /\ ek_depth c = 3.
 Proof. split; [vm_compute; reflexivity|]. eexists; split; vm_compute; reflexivity. Qed.
+
+(* ------------------------------------------------------------------ keys are objects, not values
+   The theorems above speak of key VALUES. hdkeychain.ExtendedKey is a mutable object: byte slices
+   into backing arrays, a memoised pubKey, and Zero() wiping the arrays in place.
+   Codec/Bip32Obj.v: a heap of byte buffers and a table of key objects; [obs_at st a] = the stored
+   fields key object a reads in state st; [o_child], [o_neuter nfix], [o_zero], [o_string],
+   [o_pubkey] = the methods as heap transformers built from the value functions above
+   ([nfix] = true: Neuter copies the three slices, /repo as repaired; false: as first found, the
+   neutered key shares pubKey / chainCode / parentFP with the private key); [run_script] = the
+   scripts of the OBJ / OBJN correspondence cases (derive siblings, neutered copies, grandchildren,
+   use them, zero them, zero the parent; then observe key object B).
+   No assumption on the primitives is needed here. *)
+Section C14Obj.
+  Variable hmac512 : bytes -> bytes -> bytes.
+  Variable point : Type.
+  Variable smulG : Z -> point.
+  Variable padd : point -> point -> point.
+  Variable ser_P : point -> bytes.
+  Variable parse_pub : bytes -> option point.
+  Variable coord_zero : point -> bool.
+  Variable hash160 : bytes -> bytes.
+  Variable dsha256 : bytes -> bytes.
+  Variable b58enc : bytes -> bytes.
+
+  Local Notation child := (child hmac512 point smulG padd ser_P parse_pub coord_zero hash160).
+  Local Notation neuter := (neuter point smulG ser_P).
+  Local Notation o_child := (o_child hmac512 point smulG padd ser_P parse_pub coord_zero hash160).
+  Local Notation o_neuter := (o_neuter point smulG ser_P).
+  Local Notation o_string := (o_string point smulG ser_P dsha256 b58enc).
+  Local Notation o_pubkey := (o_pubkey point smulG ser_P).
+  Local Notation memo_ok := (memo_ok point smulG ser_P).
+  Local Notation reachable := (reachable hmac512 point smulG padd ser_P parse_pub coord_zero hash160 dsha256 b58enc).
+  Local Notation run_script := (run_script hmac512 point smulG padd ser_P parse_pub coord_zero hash160 dsha256 b58enc).
+  Local Notation val_script := (val_script hmac512 point smulG padd ser_P parse_pub coord_zero hash160).
+
+  (* every reachable heap — keys created from field values on fresh slices, then any sequence of
+     Child / Neuter (copying) / Zero / String / pubKeyBytes on keys of the table — is separated:
+     buffer ids in range, the buffers of one key pairwise distinct, no buffer referenced by two
+     keys; and the memoised public key of a private key is the public key of its stored scalar *)
+  Theorem C14_key_objects_separate : forall st, reachable st -> sep st /\ memo_ok st.
+  Proof. exact (reachable_inv hmac512 point smulG padd ser_P parse_pub coord_zero hash160 dsha256 b58enc). Qed.
+
+  (* each single operation keeps the separation *)
+  Theorem C14_ops_keep_separation : forall st a,
+    sep st -> (a < length (objs_of st))%nat ->
+    (forall f, sep (fst (new_obj st f))) /\
+    (forall i, sep (fst (o_child st a i))) /\ sep (fst (o_neuter true st a)) /\
+    sep (o_zero st a) /\ sep (fst (o_string st a)) /\ sep (fst (o_pubkey st a)).
+  Proof. exact (op_sep hmac512 point smulG padd ser_P parse_pub coord_zero hash160 dsha256 b58enc). Qed.
+
+  (* frame: in a separated heap, Zero of key a leaves every other key b as it was (and a reads as
+     the zeroed value); Child, Neuter, String, pubKeyBytes on a change what no key reads, a
+     included (the memoisation is invisible) *)
+  Theorem C14_zero_frame : forall st a b,
+    sep st -> (a < length (objs_of st))%nat -> (b < length (objs_of st))%nat ->
+    (b <> a -> obs_at (o_zero st a) b = obs_at st b) /\
+    obs_at (o_zero st a) a = v_zero (obs_at st a) /\
+    (forall i, obs_at (fst (o_child st a i)) b = obs_at st b) /\
+    obs_at (fst (o_neuter true st a)) b = obs_at st b /\
+    obs_at (fst (o_string st a)) b = obs_at st b /\
+    obs_at (fst (o_pubkey st a)) b = obs_at st b.
+  Proof. exact (op_frame hmac512 point smulG padd ser_P parse_pub coord_zero hash160 dsha256 b58enc). Qed.
+
+  (* the value semantics of key objects: for EVERY script, every parent and index, the key object B
+     observed at the end reads exactly Child(parent, i) (OBJ) / Neuter(parent) (OBJN) — whatever was
+     derived, used and zeroed before and after it, the parent included. [no_B_after_p]: B is not
+     derived a second time from a parent the script zeroed before (the generated scripts derive B
+     once) ... *)
+  Theorem C14_key_object_value_semantics : forall neu f i script,
+    no_B_after_p script = true ->
+    run_script true neu f i script =
+    if existsb is_B script then Some (if neu then neuter f else child f i) else None.
+  Proof. exact (obj_value_semantics hmac512 point smulG padd ser_P parse_pub coord_zero hash160 dsha256 b58enc). Qed.
+
+  (* ... and with no side condition at all: the object interpreter computes what the interpreter on
+     values computes (there B derived from a zeroed parent is the child of the zeroed value) *)
+  Theorem C14_key_object_scripts_on_values : forall neu f i script,
+    run_script true neu f i script = val_script neu f i script.
+  Proof. exact (run_script_is_val_script hmac512 point smulG padd ser_P parse_pub coord_zero hash160 dsha256 b58enc). Qed.
+End C14Obj.
+
+(* Neuter as first found (sharing): closed witnesses over the toy primitives. (1) OBJN script B.p,
+   pub := priv.Neuter(); priv.Zero(): pub reads all zero; (2) OBJ script B.m: zeroing a neutered copy
+   of B wipes B's chain code and parent fingerprint; (3) OBJ script n.B: zeroing a neutered copy of
+   the parent before deriving B. With the copying Neuter each of them gives the value. *)
+Theorem C14_neuter_sharing_refuted :
+  (exists f script,
+     Toy.wf_key f /\ no_B_after_p script = true /\
+     ToyObj.run_script Toy.hmac_key true true f 0 script = Some (ToyObj.neuter f) /\
+     ToyObj.run_script Toy.hmac_key false true f 0 script <> Some (ToyObj.neuter f) /\
+     exists k, ToyObj.run_script Toy.hmac_key false true f 0 script = Some (Ok k) /\
+               ek_key k = repeat 0 33 /\ ek_chain k = repeat 0 32 /\ ek_fp k = repeat 0 4) /\
+  (exists f i script,
+     Toy.wf_key f /\ no_B_after_p script = true /\
+     ToyObj.run_script Toy.hmac_key true false f i script = Some (Toy.child Toy.hmac_key f i) /\
+     ToyObj.run_script Toy.hmac_key false false f i script <> Some (Toy.child Toy.hmac_key f i) /\
+     exists k, ToyObj.run_script Toy.hmac_key false false f i script = Some (Ok k) /\
+               ek_chain k = repeat 0 32 /\ ek_fp k = repeat 0 4) /\
+  (exists f i script,
+     Toy.wf_key f /\ no_B_after_p script = true /\
+     ToyObj.run_script Toy.hmac_key true false f i script = Some (Toy.child Toy.hmac_key f i) /\
+     ToyObj.run_script Toy.hmac_key false false f i script <> Some (Toy.child Toy.hmac_key f i)).
+Proof. exact obj_value_semantics_refuted. Qed.
+
+Print Assumptions C14_key_objects_separate.
+Print Assumptions C14_ops_keep_separation.
+Print Assumptions C14_zero_frame.
+Print Assumptions C14_key_object_value_semantics.
+Print Assumptions C14_key_object_scripts_on_values.
+Print Assumptions C14_neuter_sharing_refuted.
+
+(* non-vacuity: a script with several operations before and after B — siblings derived and zeroed,
+   a sibling kept and used, neutered copies of the parent and of B zeroed, a grandchild zeroed, the
+   parent zeroed, a grandchild derived after that — on a well-formed private parent; the observed B
+   is the child the value model computes (a key of depth 3), and the heap it ends in is separated *)
+Definition ex_script : list op :=
+  [OpA 3; OpN; OpU (hardened_start + 4); OpB; OpC 1; OpM; OpS; OpA 9; OpN; OpP; OpC (hardened_start + 2); OpS].
+Example C14_ex_obj_script :
+  Toy.wf_key ToyObj.parent /\ no_B_after_p ex_script = true /\ existsb is_B ex_script = true /\
+  ToyObj.run_script Toy.hmac_key true false ToyObj.parent 7 ex_script = Some (Toy.child Toy.hmac_key ToyObj.parent 7) /\
+  exists c, Toy.child Toy.hmac_key ToyObj.parent 7 = Ok c /\ ek_depth c = 3 /\ ek_priv c = true.
+Proof.
+  split; [exact ToyObj.parent_wf|]. split; [reflexivity|]. split; [reflexivity|].
+  split; [vm_compute; reflexivity|]. eexists. split; [vm_compute; reflexivity|]. split; reflexivity.
+Qed.
